@@ -323,7 +323,32 @@ def o_presets(rec, case, soft=False):
 ORACLES["presets"] = o_presets
 
 
+@oracle(PROPERTY, "host_context")
+def o_host_context(rec, case, soft=False):
+    """host_context mirrors the host: every crypt() scheme the C library demonstrably supports (independent probe through libxcrypt with a
+    published vector), strongest first in the documented order, then unix_disabled"""
+    import passlib.hosts
+    from passlib.utils import unix_crypt_schemes
+
+    from ..refs import third as R3
+
+    ctx = getattr(passlib.hosts, "host_context", None)
+    if ctx is None:
+        rec.count("host_context-absent")
+        return
+    want = [n for n in unix_crypt_schemes if R3.os_crypt_supports(n)] + ["unix_disabled"]
+    got = list(ctx.schemes())
+    rec.ev()
+    rec.nt("host_context", tuple(want))
+    if got != want:
+        rec.fail("C17/host-context-schemes", "passlib.hosts.host_context does not list exactly the crypt() schemes the host supports (+ unix_disabled)", "host_context", case, got, want, soft=soft)
+
+
+ORACLES["host_context"] = o_host_context
+
+
 def t_presets(rec, seed, tier):
+    o_host_context(rec, {}, soft=True)
     o_presets(rec, {}, soft=True)
     rec.sample("presets", {"presets": ["django-1.0", "django-1.4", "django-1.6", "django-latest"]})
 
